@@ -113,24 +113,24 @@ ITEMS = location_types() + budget_types() + error_types() + [
          ensures=[('scalar_fingerprint_is_text_and_tag', '''match *self {
                 KeyNode::Fingerprinted { fingerprint, .. } => r.deref_spec() == fingerprint,
                 KeyNode::Scalar { events, .. } => match events@[0] {
-                    Ev::Scalar { value, tag, .. } => fp_of(r.deref_spec()) == Fp::Scalar(value@, tag),
+                    Ev::Scalar { value, tag, .. } => fp_deep(r.deref_spec()) == Fp::Scalar(value@, tag),
                     _ => false } }''')],
          canaries=['scalar_fingerprint_is_text_and_tag']),
     dict(src=D, path='impl KeyNode/fn events', props=['C03', 'C04'],
          ensures=[('view', 'r@ == keynode_events(*self)')], canaries=['view']),
     dict(src=D, path='impl KeyNode/fn take_events', props=['C03', 'C04'],
-         rewrites=[(r'mem::take\(events\)', 'mem_take_events(events)', 2, 'R8')],
+         rewrites=[(r'mem::take\(events\)', 'mem_take_events(events)', None, 'R8')],
          ensures=[('moves_events_out', '''r@ == keynode_events(*old(self)) && keynode_events(*final(self)) == Seq::<Ev<'a>>::empty()
                 && keynode_location(*final(self)) == keynode_location(*old(self))''')], canaries=['moves_events_out']),
     dict(src=D, path='impl KeyNode/fn take_fingerprint', props=['C04', 'C01'],
-         rewrites=[(r'mem::take\(fingerprint\)', 'mem_take_fingerprint(fingerprint)', 1, 'R8')],
+         rewrites=[(r'mem::take\(fingerprint\)', 'mem_take_fingerprint(fingerprint)', None, 'R8')],
          requires=[('representation_invariant', 'keynode_wf(*old(self))')],
          ensures=[('fingerprint_value', '''keynode_events(*final(self)) == keynode_events(*old(self))
                 && keynode_location(*final(self)) == keynode_location(*old(self)) && keynode_wf(*final(self))
                 && match *old(self) {
                     KeyNode::Fingerprinted { fingerprint, .. } => r == fingerprint,
                     KeyNode::Scalar { events, .. } => match events@[0] {
-                        Ev::Scalar { value, tag, .. } => fp_of(r) == Fp::Scalar(value@, tag),
+                        Ev::Scalar { value, tag, .. } => fp_deep(r) == Fp::Scalar(value@, tag),
                         _ => false } }''')],
          canaries=['fingerprint_value']),
     dict(src=D, path='impl KeyNode/fn location', props=['C16'],
@@ -152,7 +152,7 @@ ITEMS = location_types() + budget_types() + error_types() + [
 ''',
          impl_methods={
              'next': dict(rewrites=[(r'mem::replace\(&mut self\.buf\[self\.idx\], Ev::Taken \{ location \}\)',
-                                     'vec_replace_ev(&mut self.buf, self.idx, Ev::Taken { location })', 1, 'R8')],
+                                     'vec_replace_ev(&mut self.buf, self.idx, Ev::Taken { location })', None, 'R8')],
                           ensures=[('replays_in_order', '''match r {
                               Ok(Some(e)) => old(self).idx < old(self).buf@.len() && e == old(self).buf@[old(self).idx as int]
                                              && final(self).idx == old(self).idx + 1
@@ -163,12 +163,12 @@ ITEMS = location_types() + budget_types() + error_types() + [
                           canaries=['replays_in_order']),
              'peek': dict(ensures=[('never_fails_never_moves', 'r is Ok && *final(self) == *old(self)')], canaries=['never_fails_never_moves']),
              'last_location': dict(rewrites=[(r'self\.buf\s*\.get\(last\)\s*\.map\(\|e\| e\.location\(\)\)\s*\.unwrap_or\(Location::UNKNOWN\)',
-                        '(match self.buf.get(last) { Some(e) => e.location(), None => Location::UNKNOWN })', 1, 'R18')],
+                        '(match self.buf.get(last) { Some(e) => e.location(), None => Location::UNKNOWN })', None, 'R18')],
                                    ensures=[('location_of_previous_event', '''r == (
                     if self.buf@.len() == 0 || prev_idx(self.idx) >= self.buf@.len() { Location::UNKNOWN }
                     else { self.buf@[prev_idx(self.idx)].spec_location() })''')]),
              'reference_location': dict(rewrites=[(r'self\.buf\s*\.get\(self\.idx\)\s*\.map\(\|e\| e\.location\(\)\)\s*\.unwrap_or_else\(\|\| self\.last_location\(\)\)',
-                        '(match self.buf.get(self.idx) { Some(e) => e.location(), None => self.last_location() })', 1, 'R18')],
+                        '(match self.buf.get(self.idx) { Some(e) => e.location(), None => self.last_location() })', None, 'R18')],
                                         ensures=[('override_else_current_else_last', '''r == (match self.ref_override {
                     Some(loc) => loc,
                     None => if self.idx < self.buf@.len() { self.buf@[self.idx as int].spec_location() }
@@ -176,4 +176,87 @@ ITEMS = location_types() + budget_types() + error_types() + [
                             else { self.buf@[prev_idx(self.idx)].spec_location() } })''')],
                                         canaries=['override_else_current_else_last']),
          }),
+    dict(src=D, path='fn capture_node', props=['C03', 'C04', 'C08', 'C01'],
+         rewrites=[(r'events\.extend\((\w+)\);', r'vec_extend_ev(&mut events, \1);', None, 'R8')],
+         decreases='old(ev).rest().len()',
+         ensures=[
+             ('captures_exactly_one_node', '''match r {
+                Ok(node) => ({ let s = old(ev).rest();
+                    &&& knode(s, 0) is Some
+                    &&& keynode_events(node) == s.take(knode(s, 0).unwrap())
+                    &&& final(ev).rest() == s.skip(knode(s, 0).unwrap())
+                    &&& keynode_wf(node)
+                    &&& keynode_location(node) == s[0].spec_location() }),
+                Err(_) => true }'''),
+             ('C04:fingerprint_is_structure_text_tag', '''match r {
+                Ok(node) => keynode_fp(node) == fp_node(old(ev).rest(), 0),
+                Err(_) => true }'''),
+         ],
+         requires=[('stream_below_2_64_events', 'old(ev).rest().len() <= usize::MAX')],
+         proofs=[
+             dict(at='start', ghost=True, text='let ghost s = ev.rest();'),
+             dict(at='start', text='lemma_knode_bounds(s, 0); lemma_knode_bounds(s, 1); if s.len() > 0 { assert(s.skip(0) =~= s); assert(s.take(1) =~= seq![s[0]]); assert(s.skip(1) =~= s.skip(0).skip(1)); }'),
+             # sequence: closing event
+             dict(after='events.push(Ev::SeqEnd { location: end_loc });', text='''
+                 let c = s.len() - ev.rest().len();
+                 assert(s.skip(c - 1)[0] == s[c - 1]);
+                 assert(s.skip(c - 1).skip(1) =~= s.skip(c));
+                 assert(s.take(c - 1).push(s[c - 1]) =~= s.take(c));
+                 assert(fp_seq(s, c - 1) =~= Seq::<Fp>::empty());
+                 assert(fps_deep(elements@) + Seq::<Fp>::empty() =~= fps_deep(elements@));'''),
+             # sequence: one child captured
+             dict(before='let mut child = capture_node(ev)?;', ghost=True, text='let ghost c0: int = s.len() - ev.rest().len();'),
+             dict(after='let mut child = capture_node(ev)?;', text='lemma_child(s, c0);'),
+             dict(after='events.reserve(child_events.len());', text='''
+                 let m = child_events@.len() as int;
+                 lemma_kseq_step(s, c0, c0 + m);
+                 let prev = elements@.drop_last();
+                 assert(fps_deep(elements@) =~= fps_deep(prev).push(fp_deep(elements@.last())));
+                 assert(fps_deep(prev).push(fp_deep(elements@.last())) + fp_seq(s, c0 + m) =~= fps_deep(prev) + (seq![fp_deep(elements@.last())] + fp_seq(s, c0 + m)));'''),
+             dict(after_loop=1, text='lemma_fp_deep_seq(elements);'),
+             # mapping: closing event
+             dict(after='events.push(Ev::MapEnd { location: end_loc });', text='''
+                 let c = s.len() - ev.rest().len();
+                 assert(s.skip(c - 1)[0] == s[c - 1]);
+                 assert(s.skip(c - 1).skip(1) =~= s.skip(c));
+                 assert(s.take(c - 1).push(s[c - 1]) =~= s.take(c));
+                 assert(fp_map(s, c - 1) =~= Seq::<(Fp, Fp)>::empty());
+                 assert(fp_pairs_deep(entries@) + Seq::<(Fp, Fp)>::empty() =~= fp_pairs_deep(entries@));'''),
+             # mapping: key captured, then value captured
+             dict(before='let mut key = capture_node(ev)?;', ghost=True, text='let ghost c0: int = s.len() - ev.rest().len();'),
+             dict(after='let mut key = capture_node(ev)?;', text='lemma_child(s, c0);'),
+             dict(before='let mut value = capture_node(ev)?;', ghost=True, text='let ghost c1: int = s.len() - ev.rest().len();'),
+             dict(after='let mut value = capture_node(ev)?;', text='lemma_child(s, c1);'),
+             dict(before='events.reserve(key_events.len() + value_events.len());', text='''
+                 let c = s.len() - ev.rest().len();
+                 lemma_kmap_step(s, c0, c1, c);
+                 let prev = entries@.drop_last();
+                 let last = (fp_deep(entries@.last().0), fp_deep(entries@.last().1));
+                 assert(fp_pairs_deep(entries@) =~= fp_pairs_deep(prev).push(last));
+                 assert(fp_pairs_deep(prev).push(last) + fp_map(s, c) =~= fp_pairs_deep(prev) + (seq![last] + fp_map(s, c)));'''),
+             dict(after_loop=2, text='lemma_fp_deep_map(entries);'),
+         ],
+         loops={
+             1: dict(
+                 invariant_except_break=[('seq_cursor', '''({ let c = s.len() - ev.rest().len();
+                     &&& s == old(ev).rest() && s.len() > 0 && s[0] is SeqStart && location == s[0].spec_location()
+                     &&& 1 <= c <= s.len() && s.len() <= usize::MAX && ev.rest() == s.skip(c) && events@ == s.take(c)
+                     &&& kseq(s, 1) == kseq(s, c)
+                     &&& fp_seq(s, 1) == fps_deep(elements@) + fp_seq(s, c) })''')],
+                 ensures=[('seq_done', '''s == old(ev).rest() && s.len() > 0 && s[0] is SeqStart && location == s[0].spec_location()
+                     && knode(s, 0) is Some && events@ == s.take(knode(s, 0).unwrap()) && ev.rest() == s.skip(knode(s, 0).unwrap())
+                     && fp_seq(s, 1) == fps_deep(elements@)''')],
+                 decreases='ev.rest().len()'),
+             2: dict(
+                 invariant_except_break=[('map_cursor', '''({ let c = s.len() - ev.rest().len();
+                     &&& s == old(ev).rest() && s.len() > 0 && s[0] is MapStart && location == s[0].spec_location()
+                     &&& 1 <= c <= s.len() && s.len() <= usize::MAX && ev.rest() == s.skip(c) && events@ == s.take(c)
+                     &&& kmap(s, 1) == kmap(s, c)
+                     &&& fp_map(s, 1) == fp_pairs_deep(entries@) + fp_map(s, c) })''')],
+                 ensures=[('map_done', '''s == old(ev).rest() && s.len() > 0 && s[0] is MapStart && location == s[0].spec_location()
+                     && knode(s, 0) is Some && events@ == s.take(knode(s, 0).unwrap()) && ev.rest() == s.skip(knode(s, 0).unwrap())
+                     && fp_map(s, 1) == fp_pairs_deep(entries@)''')],
+                 decreases='ev.rest().len()'),
+         },
+         canaries=['captures_exactly_one_node', 'C04:fingerprint_is_structure_text_tag']),
 ]
